@@ -25,6 +25,25 @@ var rfcDeviate = map[string][]string{
 	"deviateReplace":      {"config", "default", "mandatory", "max-elements", "min-elements", "type", "units"},
 }
 
+// c14ExtensionType: the node type is one of the extension kinds
+// (NodeType.IsExtensionNode, evaluated from its source), which every deviate
+// kind lets through.
+func c14ExtensionType(w *World, v int64) bool {
+	f := w.SSAFunc(w.Method("parse", "NodeType", "IsExtensionNode"))
+	sym := NewSym(w)
+	sym.Expand = true
+	res, ok := pcEvalFree(sym.ResultCond(f, nil), func(a *pcAtom) (bool, bool) {
+		if a.subj != "" {
+			return a.set.contains(v), true
+		}
+		return false, false
+	})
+	if !ok {
+		panic(undecided{"NodeType.IsExtensionNode is not a test of the type's value alone"})
+	}
+	return res
+}
+
 func checkC14(w *World, r *Report) {
 	r.NotDecided = []string{
 		"equivalence of deviate add/replace/delete with a source edit as a whole (a relation over runtime trees); the step that selects and replaces the statement is decided",
@@ -39,22 +58,68 @@ func checkC14(w *World, r *Report) {
 		for _, typ := range []string{"deviateNotSupported", "deviateDelete", "deviateAdd", "deviateReplace"} {
 			m := w.Method("compile", typ, "isAllowed")
 			fd, _ := w.FuncDecl(m)
-			// first switch on property.Type(): the arm(s) listing node-type constants
+			// the statement kinds for which isAllowed returns nil whatever else holds: the nil exits'
+			// condition, evaluated for every node type (tests of property.Type() and lookups of it in
+			// read-only tables are known; everything else — the extension cardinality — is left open)
 			var got []string
-			ast.Inspect(fd.Body, func(x ast.Node) bool {
-				cc, ok := x.(*ast.CaseClause)
-				if !ok {
-					return true
+			f := w.SSAFunc(m)
+			if len(f.Params) < 3 || len(ssaLoops(f)) > 0 {
+				panic(undecided{typ + ".isAllowed: shape"})
+			}
+			prop := f.Params[2]
+			sym := NewSym(w)
+			sym.Expand = true
+			accept := pcZ
+			for _, row := range sym.retTable(f, 0) {
+				if isNilConst(row.val) {
+					accept = pcOrF(accept, row.cond)
 				}
-				for _, e := range cc.List {
-					if v, ok := ConstInt(p, e); ok {
-						if t := p.TypesInfo.TypeOf(e); t != nil && strings.HasSuffix(t.String(), "parse.NodeType") {
-							got = append(got, names[v])
+			}
+			isPropType := func(v ssa.Value) bool {
+				c, ok := v.(*ssa.Call)
+				return ok && c.Call.IsInvoke() && c.Call.Method.Name() == "Type" && c.Call.Value == ssa.Value(prop)
+			}
+			var vals []int64
+			for v := range names {
+				vals = append(vals, v)
+			}
+			sort.Slice(vals, func(i, j int) bool { return vals[i] < vals[j] })
+			// deviate add does not accept outright: for its core properties the verdict is the
+			// target's own cardinality for the statement (GetCardinalityEnd) instead of the
+			// extension cardinality — the kinds that take that route are its list
+			for _, b := range f.Blocks {
+				for _, in := range b.Instrs {
+					if c, ok := in.(*ssa.Call); ok && c.Call.IsInvoke() && c.Call.Method.Name() == "GetCardinalityEnd" && c.Call.Value == ssa.Value(f.Params[1]) {
+						if len(c.Call.Args) != 1 || !isPropType(c.Call.Args[0]) {
+							panic(undecided{typ + ".isAllowed: cardinality asked for another statement kind"})
 						}
+						accept = pcOrF(pcAndF(accept, pcZ), sym.PathCond(f.Blocks[0], b, nil))
 					}
 				}
-				return true
-			})
+			}
+			for _, v := range vals {
+				res, decided := pcEvalFree(accept, func(a *pcAtom) (bool, bool) {
+					if bo, ok := a.v.(*ssa.BinOp); ok && a.subj != "" {
+						for _, side := range []ssa.Value{bo.X, bo.Y} {
+							if isPropType(sym.Resolve(side, a.ctx)) {
+								return a.set.contains(v), true
+							}
+						}
+					}
+					if keys, idx, ok := pcTableLookup(w, a.v); ok && isPropType(sym.Resolve(idx, a.ctx)) {
+						for _, k := range keys {
+							if kv, isInt := constant.Int64Val(k); isInt && kv == v {
+								return true, true
+							}
+						}
+						return false, true
+					}
+					return false, false
+				})
+				if decided && res && !c14ExtensionType(w, v) {
+					got = append(got, names[v])
+				}
+			}
 			sort.Strings(got)
 			want := rfcDeviate[typ]
 			r.Check(strings.Join(got, ",") == strings.Join(want, ","), "R14.1", typ+".isAllowed", fd.Pos(), "{"+strings.Join(got, ",")+"}",
